@@ -1,16 +1,26 @@
 """C11 — Player state is isolated per player and restored on their next turn.
 
-Correspondence: a real MPF game (rig.FakeGameRig = mpf.tests.MpfFakeGameTestCase on the virtual clock) with one game
-mode that contains persisted counters, a persisted accrual, shots with profiles (persisted enable flag and profile
-state) and variable_player entries, and the Gallina model coq/C11/Model.v, interpret the same generated histories
-(start button / add player, scoring and progress events, drains, extra balls, end_game, new game).  After every
-operation the harness dumps every player's variables (LogicBlockState objects flattened), the values the devices
-read through their binding, and the player_<var> events with their kwargs; the model must produce the same.
+Correspondence: a real MPF game (rig.FakeGameRig = mpf.tests.MpfFakeGameTestCase on the virtual clock) and the Gallina
+model interpret the same generated histories (start button / add player, scoring and progress events, drains, extra
+balls, end_game, new game).  After every operation the harness dumps every player's variables (LogicBlockState objects
+flattened, dicts and lists with their content), the values the devices read through their binding, the running
+modes, the machine variables and the player_<var> events with their kwargs; the model must produce the same.
+  suite 'game'  (coq/C11/Model.v): one game mode with persisted counters, a persisted accrual, shots with profiles
+                (persisted enable flag and profile state) and single-variable variable_player entries.
+  suite 'turns' (coq/C11/XModel.v, a second layer on top of Model.step): the same game mode plus variable_player
+                entries with 1-4 variables (`player:` overrides, add/set/add_machine/set_machine, int/float/str,
+                conditions), two achievements (all eight control events), three optional game modes
+                (restart_on_next_ball or not) with their own entries, 3-5 balls per player.
+  suite 'ext'   (oracle only): timers, a second game mode with devices that is not running for the next player.
 
 Oracle: the property's own predicates, evaluated on the implementation's dumps only (no model): other players'
-variables are untouched by an operation, what the devices read at a player's ball start equals what they read at
-that player's previous ball end (or the configured initial values), a new game starts from the initial values, and
-the player_<var> events of every operation form an exact chain from the old to the new value of each variable.
+variables are untouched by an operation unless a variable_player variable names that player with `player: N` (then
+exactly that variable changes), a variable without `player:` lands on the player whose turn it is, machine actions
+touch no player, what the devices read at a player's ball start equals what they read at that player's previous ball
+end (or the configured initial values), the optional modes running after a ball start are exactly the
+restart_on_next_ball modes that ran when that player's previous ball ended, achievements are restored as configured,
+a new game starts from the initial values, and the player_<var> events of every operation form an exact chain from
+the old to the new value of each variable with the owning player's number.
 """
 import json
 
@@ -25,65 +35,94 @@ RULE = ("machine + game-mode configuration drawn per case (1-3 balls per game, u
         "button (new game / add player, also when refused), scoring and progress events (also outside a game), drains, "
         "extra balls, end_game, new game.  non-trivial = at least two players had a turn each, a hand-over happened "
         "after their persisted device states had diverged, and a player came back to a second ball; distinct by case "
-        "hash.  suite 'ext' (validation only, not fed to the model): the same games with two achievements (all "
-        "control events, random restart_on_next_ball_when_started / enable_on_next_ball_when_enabled / start_enabled) and "
+        "hash.  suite 'turns' (fed to the model XModel.v): the same game mode, 3-5 balls per game, 1-4 players, plus "
+        "7 variable_player entries with 1-4 variables each (4 in the always-on mode, one in each optional mode) mixing "
+        "`player:` 0 / the current player / another player / a player who does not exist, add / set / add_machine / "
+        "set_machine, int / float / str values and conditions on the event argument n (half of the multi-variable "
+        "entries put an explicit player first and the current player's variables after it), two achievements with "
+        "random restart_on_next_ball_when_started / enable_on_next_ball_when_enabled / restart_after_stop_possible / "
+        "start_enabled driven by all eight control events, three optional game modes (restart_on_next_ball random) "
+        "started and stopped at generated points; a mode that came back with a ball is stopped again with "
+        "probability 0.45 so that 'stopped modes do not come back' is exercised on a third ball; up to 2 games, 30-90 "
+        "operations.  non-trivial = a player reached a third ball, a restart mode was carried over and one was "
+        "dropped, and an entry with an explicit other player followed by a variable of the current player fired.  "
+        "suite 'ext' (validation only, not fed to the model): the 'game' configuration with two achievements and "
         "a running timer added to the game mode, plus a second game mode m2 that only runs when a player starts it "
         "(optionally restart_on_next_ball) with a timer (timed pause, add, start, stop), a shot with persist_enable: false "
         "and machine-wide control_events, a persisted shot with control_events, a persisted accrual (machine-wide step "
-        "handlers), a non-persisted and a persisted counter (control events add/subtract/jump); hand-over scenarios "
-        "are injected: a timed pause or device progress right before the ball ends, then 3-6 operations of the next "
-        "player without m2 (control events, step events, waiting).  non-trivial = >= 3 distinct achievement readings "
-        "and a hand-over out of a running m2 followed by >= 3 operations of the next player without m2")
+        "handlers), a non-persisted and a persisted counter (control events add/subtract/jump, delivered also while "
+        "m2 is not running); hand-over scenarios are injected: a timed pause or device progress right before the ball "
+        "ends, then 3-6 operations of the next player without m2 (control events, step events, waiting).  "
+        "non-trivial = >= 3 distinct achievement readings and a hand-over out of a running m2 followed by >= 3 "
+        "operations of the next player without m2")
 TRUSTED_BASE = [
     "Coq 8.16.1 kernel (coqc), vm_compute for evaluating the model in the correspondence run; no native_compute",
     "axioms: none (every Print Assumptions is 'Closed under the global context')",
-    "hand-written model coq/C11/Model.v tied to /repo by correspondence: harness/props/c11.py runs a real game "
-    "(MpfFakeGameTestCase machine on the virtual clock) and the model on the same histories and compares all player "
-    "variables, device reads and player_<var> events after every operation",
-    "the table variable-name <-> id and event-name <-> id lives in the harness (the model works on ids); the names the "
-    "implementation uses for device state ('<block>_state', 'shot_<name>', 'shot_<name>_enabled') are observed in the "
-    "dumps, an unknown variable name maps to an id the model never produces",
-    "MPF's EventManager, Mode start/stop machinery, config loading and the game loop coroutine are exercised for real "
-    "but modelled only through their effect on player variables (which player a handler is bound to, order of posts)",
+    "hand-written models coq/C11/Model.v (game, devices) and coq/C11/XModel.v (second layer: multi-variable "
+    "variable_player entries, machine variables, optional modes with restart_on_next_ball, achievements) tied to "
+    "/repo by correspondence: harness/props/c11.py runs a real game (MpfFakeGameTestCase machine on the virtual "
+    "clock) and the model on the same histories and compares all player variables, device reads, running modes, "
+    "restart lists, achievement records, machine variables and player_<var> events after every operation",
+    "the table variable-name <-> id, event-name <-> id and mode-name <-> id lives in the harness (the model works on "
+    "ids); the names the implementation uses for device state ('<block>_state', 'shot_<name>', "
+    "'shot_<name>_enabled') are observed in the dumps, an unknown variable name maps to an id the model never produces",
+    "MPF's EventManager, Mode start/stop machinery, config loading, template/condition evaluation and the game loop "
+    "coroutine are exercised for real but modelled only through their effect on player variables (which player a "
+    "handler is bound to, order of posts, condition n==K on the event argument)",
 ]
 ASSUMPTIONS = [
     "every MPF event of the alphabet drives at most one action per device; one event may drive several devices "
     "(ev_c2 counts counter c2 and advances shot sh2; ev_c1 counts c1 and scores) but they write different variables, "
     "so handler order inside one dispatch does not matter; variable_player never writes the built-in variables "
-    "index/number/ball or device state variables",
-    "variable_player 'add' is only used on numeric variables (adding to a str variable raises TypeError in MPF)",
+    "index/number/ball or device state variables; every event has at most one multi-variable entry",
+    "variable_player 'add' is only used on numeric variables (adding to a str variable raises TypeError in MPF); a "
+    "variable name occurs once per entry (MPF keys the entry's dict by the variable name without its condition)",
+    "`player: N` is generated with N >= 0 only (a negative N indexes player_list from its end in Python); for a "
+    "player who does not exist MPF logs 'Failed to set player var' and credits the CURRENT player: modelled as the "
+    "code does it and accepted by the oracle (the variable changes in its owner's own turn)",
     "floats stay on the 1/8 grid (exact binary arithmetic); extra_balls is only ever incremented by the config",
-    "game modes stop at ball end (MPF rejects game_mode + stop_on_ball_end: false at config time)",
-    "not modelled in Coq, validated by the oracle-only suite 'ext': achievements, timers (a timer's tick variable is "
-    "re-initialised at every mode start by design), a second game mode that is not running for the next player, shots "
-    "with persist_enable: false, non-persisted logic blocks, machine-wide control events.  Not covered at all: "
-    "sequences, shot groups, logic_block_timeout, persist_enable: false on devices other than shots, variable_player "
-    "'player:' targeting",
-    "suite 'ext': counter control events (add/subtract/jump) are delivered only while mode m2 is really running, "
-    "except for one deliberate delivery in ~8% of the cases that reproduces the recorded defect "
-    "counter-control-event-without-state (repair proposed in fixes/C11-counter-control-events-without-state.patch)",
+    "game modes stop at ball end (MPF rejects game_mode + stop_on_ball_end: false at config time); the optional "
+    "modes of suite 'turns' carry variable_player entries but no devices; their priorities are distinct",
+    "not modelled in Coq, validated by the oracle-only suite 'ext': timers (a timer's tick variable is "
+    "re-initialised at every mode start by design; its ticks depend on the clock phase), a second game mode WITH "
+    "DEVICES that is not running for the next player, shots with persist_enable: false, non-persisted logic "
+    "blocks, machine-wide control events.  Not covered at all: sequences, shot groups, state machines, ball "
+    "holds / multiball locks, logic_block_timeout, persist_enable: false on devices other than shots, "
+    "variable_player block:/subscriptions, Player.monitor_enabled",
+    "suite 'ext': counter control events (add/subtract/jump) are delivered also while mode m2 is not running; since "
+    "the repair 6a5039f in /repo (fixes/C11-counter-control-events-without-state.patch) they are ignored then; the "
+    "crash the repair removed would be reported as VIOLATION counter-control-event-without-state (the finding is "
+    "recorded as fixed, not as known)",
 ]
 DESIGN_REF = "DESIGN.md section 3, C11"
-TECHNIQUE = "Coq proof over an executable Gallina model + differential correspondence (vm_compute) + direct trace oracle"
+TECHNIQUE = ("Coq proof over an executable Gallina model in two layers (game + devices; multi-variable variable_player, "
+             "machine scope, restart_on_next_ball modes, achievements) + differential correspondence (vm_compute) + "
+             "direct trace oracle")
 LEVEL_TEXT = ("Machine-checked proof (Coq) over an executable model of Player.__setattr__, persisted logic-block/shot "
-              "state and the turn hand-over: for every configuration and every history, an operation changes only the "
-              "variables of the player whose turn it is (frame), what the devices read when a player's next ball starts "
-              "is what they read when that player's previous ball ended (restore), a new game does not depend on the "
-              "previous one and starts every player from the configured initial values, and every assignment posts "
-              "exactly one player_<var> event iff it is a new variable or an effective change of an int/str/float, with "
-              "value, prev_value, change = value - prev_value and the player's own number.  The model is tied to the "
-              "working tree by running both on the same generated histories on every run.")
+              "state, achievements, variable_player and the turn hand-over: for every configuration and every history, "
+              "an operation changes only the variables of the player whose turn it is or whom a variable_player "
+              "variable names with `player: N`, each variable's target is resolved on its own (frame), what the "
+              "devices and achievements read when a player's next ball starts is what they read when that player's "
+              "previous ball ended (restore; achievements: the configured image), exactly the restart_on_next_ball "
+              "modes that ran at the end of a player's ball run when that player's next ball starts, machine actions "
+              "touch no player, a new game does not depend on the previous one and starts every player from the "
+              "configured initial values, and every assignment posts exactly one player_<var> event iff it is a new "
+              "variable or an effective change of an int/str/float, with value, prev_value, change = value - prev_value "
+              "and the owning player's number.  The model is tied to the working tree by running both on the same "
+              "generated histories on every run.")
 LEVEL_NOTE = ("Trusted: Coq kernel + vm_compute; no axioms.  Model hand-written; the correspondence run validates it "
               "against a real game on every run.  Event dispatch order between different variables is not compared "
-              "(events are compared per player and variable, in order).  Achievements and timers are covered by the "
-              "direct oracle only (suite 'ext'), not by the proof.")
+              "(events are compared per player and variable, in order).  Timers and game modes with devices that do "
+              "not run for the next player are covered by the direct oracle only (suite 'ext'), not by the proof.")
 
 # ------------------------------------------------------------------------------------------------
 # name tables (shared with Model.v: n_index .. n_restart_modes)
 VARS = {"index": 1, "number": 2, "score": 3, "ball": 4, "extra_balls": 5, "restart_modes_on_next_ball": 6,
         "pv_int": 10, "pv_str": 11, "v_str": 12, "v_int": 13, "bonus": 14, "v_float": 15, "bonus2": 16,
         "c1_state": 20, "c2_state": 21, "a1_state": 30,
-        "shot_sh1": 40, "shot_sh1_enabled": 41, "shot_sh2": 42, "shot_sh2_enabled": 43}
+        "shot_sh1": 40, "shot_sh1_enabled": 41, "shot_sh2": 42, "shot_sh2_enabled": 43,
+        "xa": 50, "xb": 51, "xf": 52, "xs": 53}
+MVARS = {"mv_a": 60, "mv_f": 61, "mv_s": 62}      # machine variables written by variable_player (suite 'turns')
 UNKNOWN_VAR = 999
 EVENTS = {}
 
@@ -107,6 +146,17 @@ for _c in ("sh1", "sh2"):
 for _n in ("ev_score", "ev_str1", "ev_str2", "ev_strpv", "ev_set", "ev_addpv", "ev_xb", "ev_float", "ev_two", "ev_nothing"):
     _ev(_n)
 POSTABLE = [e for e in EVENTS if e.startswith("ev_")]
+# suite 'turns': multi-variable variable_player entries (ev_x*: in the game mode m1, ev_y<k>: in the optional mode
+# m<k>) and the start/stop events of the optional game modes m2..m4 (ids after the ones above: the numbering of the
+# events of suite 'game' does not move)
+X_ENTRY_EVENTS = ["ev_x1", "ev_x2", "ev_x3", "ev_x4"]
+X_MODES = (3, 2, 4)                    # in the order of ModeController.active_modes (priority 300, 200, 150)
+X_MODE_PRIORITY = {3: 300, 2: 200, 4: 150}
+X_ACH_EVENTS = ["ev_%s_%s" % (_a, _s) for _a in ("ach1", "ach2")
+                for _s in ("en", "start", "done", "stop", "dis", "reset", "sel", "unsel")]
+for _n in X_ENTRY_EVENTS + ["ev_y%d" % _k for _k in X_MODES] + \
+        ["ev_m%d_%s" % (_k, _s) for _k in X_MODES for _s in ("start", "stop")] + X_ACH_EVENTS:
+    _ev(_n)
 # coincidence: the event that counts counter c2 also advances shot sh2 (two devices, one dispatch)
 ADV_EVENT = {"sh1": "ev_sh1_adv", "sh2": "ev_c2"}
 PROGRESS = ["ev_c1", "ev_c1", "ev_c2", "ev_a1_0", "ev_a1_1", "ev_a1_2", "ev_sh1", "ev_sh2", "ev_sh1_adv", "ev_score"]
@@ -197,6 +247,22 @@ def gen(rng, tier, i):
 
 # ------------------------------------------------------------------------------------------------
 # the MPF configuration of a case
+def ach_config(x):
+    out = {}
+    for n in ("ach1", "ach2"):
+        k = x[n]
+        d = {"enable_events": "ev_%s_en" % n, "start_events": "ev_%s_start" % n, "complete_events": "ev_%s_done" % n,
+             "stop_events": "ev_%s_stop" % n, "disable_events": "ev_%s_dis" % n, "reset_events": "ev_%s_reset" % n,
+             "select_events": "ev_%s_sel" % n, "unselect_events": "ev_%s_unsel" % n,
+             "restart_on_next_ball_when_started": k["restart_started"],
+             "enable_on_next_ball_when_enabled": k["keep_enabled"],
+             "restart_after_stop_possible": k["restart_after_stop"]}
+        if k["start_enabled"] is not None:
+            d["start_enabled"] = k["start_enabled"]
+        out[n] = d
+    return out
+
+
 def build_config(c):
     machine = {
         "modes": ["m1"],
@@ -252,20 +318,34 @@ def build_config(c):
             "logicblock_a1_complete": {"bonus": 500, "score": 50},
         },
     }
+    if c.get("x"):
+        x = c["x"]
+
+        def vp_entry(sets):
+            d = {}
+            for st in sets:
+                key = st["var"] if st["cond"] is None else "%s{n==%d}" % (st["var"], st["cond"])
+                kind = {"i": "int", "f": "float", "s": "string"}[st["val"][0]]
+                e = {kind: st["val"][1] / 8.0 if kind == "float" else st["val"][1], "action": st["act"]}
+                if st["player"] is not None:
+                    e["player"] = st["player"]
+                d[key] = e
+            return d
+        m1["achievements"] = ach_config(x["achs"])
+        allmodes = {"m1": m1}
+        for md in x["modes"]:
+            k = md["k"]
+            allmodes["m%d" % k] = {"mode": {"start_events": "ev_m%d_start" % k, "stop_events": "ev_m%d_stop" % k,
+                                            "priority": X_MODE_PRIORITY[k], "restart_on_next_ball": md["restart"]},
+                                   "variable_player": {}}
+        for en in x["entries"]:
+            mode = "m1" if en["mode"] is None else "m%d" % en["mode"]
+            allmodes[mode]["variable_player"][en["ev"]] = vp_entry(en["sets"])
+        machine["modes"] = ["m1"] + ["m%d" % md["k"] for md in x["modes"]]
+        return machine, allmodes
     if c.get("ext"):
         x = c["ext"]
-        m1["achievements"] = {}
-        for n in ("ach1", "ach2"):
-            k = x[n]
-            d = {"enable_events": "ev_%s_en" % n, "start_events": "ev_%s_start" % n, "complete_events": "ev_%s_done" % n,
-                 "stop_events": "ev_%s_stop" % n, "disable_events": "ev_%s_dis" % n, "reset_events": "ev_%s_reset" % n,
-                 "select_events": "ev_%s_sel" % n, "unselect_events": "ev_%s_unsel" % n,
-                 "restart_on_next_ball_when_started": k["restart_started"],
-                 "enable_on_next_ball_when_enabled": k["keep_enabled"],
-                 "restart_after_stop_possible": k["restart_after_stop"]}
-            if k["start_enabled"] is not None:
-                d["start_enabled"] = k["start_enabled"]
-            m1["achievements"][n] = d
+        m1["achievements"] = ach_config(x)
         m1["timers"] = {"t1": {"start_value": x["t_start"], "end_value": 100000, "direction": "up", "start_running": True,
                                "tick_interval": "750ms",
                                "control_events": [{"event": "ev_t_add", "action": "add", "value": 10},
@@ -349,7 +429,7 @@ def gen_ext(rng, tier, i):
                 m2 = True
             elif r < 0.75 and m2:
                 if rng.random() < 0.12:
-                    # "ifm2": the harness delivers it only while mode m2 is really running (otherwise: recorded defect)
+                    # (marked "ifm2" for historical reasons; delivered whether or not m2 runs)
                     ops.append(["post", rng.choice(COUNTER_CONTROL), "ifm2"])
                 else:
                     ops.append(["post", rng.choice(M2_EVENTS)])
@@ -357,10 +437,162 @@ def gen_ext(rng, tier, i):
                 ops.append(["post", "ev_m2_stop"])
                 m2 = False
     if rng.random() < 0.08:
-        # recorded defect: a counter control event while the counter's mode is not running stops the machine
+        # a counter control event while the counter's mode is not running: must be ignored (crashed the machine
+        # before the repair 6a5039f)
         ops.insert(rng.randrange(1, len(ops) + 1), ["post", rng.choice(COUNTER_CONTROL)])
     case["ops"] = ops
     return case
+
+
+X_NUM_VARS = ["score", "xa", "xb", "xf"]
+
+
+def gen_x(rng, tier, i):
+    """suite 'turns': variable_player entries with 1-4 variables mixing `player:` overrides (the current player, other
+    players, 0, a player who does not exist), add/set/add_machine/set_machine, int/float/str values and conditions on
+    the event's argument n; three optional game modes (restart_on_next_ball or not) started and stopped at generated
+    points; games of 3-5 balls per player so that every player comes back at least twice"""
+    cfg = gen_cfg(rng)
+    cfg["bpg"] = rng.choice([3, 3, 4, 5])
+    cfg["maxp"] = rng.choice([1, 2, 3, 3, 4])
+    modes = [{"k": k, "restart": rng.random() < 0.6} for k in X_MODES]
+
+    def setting(var):
+        if var in ("mv_a", "mv_f"):
+            act = rng.choice(["add_machine", "add_machine", "set_machine"])
+        elif var == "mv_s":
+            act = "set_machine"
+        elif var == "xs":
+            act = "set"
+        else:
+            act = rng.choice(["add", "add", "add", "set"])
+        if var in ("xs", "mv_s"):
+            val = ["s", rng.choice(["hi", "xy", "", "abc"])]
+        elif var in ("xf", "mv_f") or (var == "xa" and rng.random() < 0.2):
+            val = ["f", rng.choice([4, 1, 12, -4, 8])]
+        else:
+            val = ["i", rng.choice([1, 2, 5, 10, 100, -3, 0])]
+        r = rng.random()
+        player = None if r < 0.45 else rng.choice([0, 1, 1, 2, 2, 3, 4, 5])
+        cond = None if rng.random() < 0.7 else rng.choice([1, 2])
+        return {"var": var, "act": act, "val": val, "player": player, "cond": cond}
+
+    def entry(ev, mode, nmax):
+        n = rng.choice(list(range(1, nmax + 1)))
+        pool = X_NUM_VARS + X_NUM_VARS + ["xs", "mv_a", "mv_f", "mv_s"]
+        names = []
+        while len(names) < n:
+            v = rng.choice(pool)
+            if v not in names:
+                names.append(v)
+        sets = [setting(v) for v in names]
+        if len(sets) >= 2 and rng.random() < 0.5:
+            # the interesting shape: an explicit player first, the current player's variables after it
+            pl = [x for x in sets if x["act"] in ("add", "set")]
+            if pl:
+                first = pl[0]
+                sets.remove(first)
+                sets.insert(0, first)
+                first["player"] = rng.choice([1, 2, 2, 3])
+                first["cond"] = None
+                for x in sets[1:]:
+                    if rng.random() < 0.7:
+                        x["player"] = None
+        return {"ev": ev, "mode": mode, "sets": sets}
+    entries = [entry(ev, None, 4) for ev in X_ENTRY_EVENTS] + [entry("ev_y%d" % k, k, 3) for k in X_MODES]
+    achs = {n: {"restart_started": rng.random() < 0.5, "keep_enabled": rng.random() < 0.5,
+                "restart_after_stop": rng.random() < 0.5, "start_enabled": rng.choice([True, False, None])}
+            for n in ("ach1", "ach2")}
+    cfg["x"] = {"modes": modes, "entries": entries, "achs": achs}
+
+    ops = []
+    g = {"in": False, "run": set(), "carry": {}}
+    restart = {md["k"]: md["restart"] for md in modes}
+
+    def emit(op):
+        """appends the operation; a rough tracker of the game (players, balls, extra balls, running optional modes)
+        only steers the probabilities"""
+        ops.append(op)
+        if op[0] == "start":
+            if not g["in"]:
+                g.update({"in": True, "balls": [1], "cur": 0, "xb": [0], "ending": False, "run": set(), "carry": {}})
+            elif not g["ending"] and len(g["balls"]) < cfg["maxp"] and g["balls"][g["cur"]] <= 1:
+                g["balls"].append(0)
+                g["xb"].append(0)
+        elif not g["in"]:
+            return
+        elif op == ["post", "ev_xb"]:
+            g["xb"][g["cur"]] += 1
+        elif op[0] == "post" and op[1].startswith("ev_m") and op[1].endswith("_start"):
+            g["run"].add(int(op[1][4]))
+        elif op[0] == "post" and op[1].startswith("ev_m") and op[1].endswith("_stop"):
+            g["run"].discard(int(op[1][4]))
+        elif op[0] in ("drain", "end_game"):
+            if op[0] == "end_game":
+                g["ending"] = True
+            c = g["cur"]
+            g["carry"][c] = set(k for k in g["run"] if restart[k])
+            if g["xb"][c] > 0:
+                g["xb"][c] -= 1
+            elif g["ending"] or (g["balls"][c] >= cfg["bpg"] and c == len(g["balls"]) - 1):
+                g["in"] = False
+                g["run"] = set()
+                return
+            else:
+                g["cur"] = (c + 1) % len(g["balls"])
+                g["balls"][g["cur"]] += 1
+            g["run"] = g["carry"].pop(g["cur"], set())
+    limit = rng.choice([30, 50, 70, 90])
+    emit(["start"])
+    for _ in range(rng.choice([0, 1, 1, 2, 2, 3])):
+        emit(["start"])
+    games = 1
+    while len(ops) < limit:
+        if not g["in"]:
+            if games >= 2 or rng.random() < 0.4:
+                break
+            games += 1
+            if rng.random() < 0.3:
+                emit(["postn", rng.choice(X_ENTRY_EVENTS), 1])       # outside a game: nothing may happen
+            emit(["start"])
+            for _ in range(rng.choice([0, 1, 2])):
+                emit(["start"])
+            continue
+        if g["run"] and rng.random() < 0.45:
+            # a mode that came back with this ball is finished by the player: it must not come back again
+            emit(["post", "ev_m%d_stop" % rng.choice(sorted(g["run"]))])
+        for _ in range(rng.choice([0, 1, 2, 3, 4, 6])):
+            r = rng.random()
+            if r < 0.16:
+                # achievements: mostly along the life cycle enable -> (select) -> start -> stop / complete
+                emit(["post", "ev_%s_%s" % (rng.choice(["ach1", "ach2"]),
+                                            rng.choice(["en", "en", "start", "start", "start", "done", "stop", "stop", "dis",
+                                                        "reset", "sel", "unsel"]))])
+                continue
+            r = rng.random()
+            if r < 0.38:
+                emit(["postn", rng.choice(X_ENTRY_EVENTS), rng.choice([0, 1, 2])])
+            elif r < 0.52:
+                emit(["post", "ev_m%d_start" % rng.choice(X_MODES)])
+            elif r < 0.60:
+                k = rng.choice(sorted(g["run"])) if g["run"] and rng.random() < 0.8 else rng.choice(X_MODES)
+                emit(["post", "ev_m%d_stop" % k])
+            elif r < 0.74:
+                k = rng.choice(sorted(g["run"])) if g["run"] and rng.random() < 0.7 else rng.choice(X_MODES)
+                emit(["postn", "ev_y%d" % k, rng.choice([0, 1, 2])])
+            elif r < 0.90:
+                emit(["post", rng.choice(["ev_c1", "ev_score", "ev_sh1", "ev_a1_0", "ev_c2", "ev_str1", "ev_float"])])
+            elif r < 0.94:
+                emit(["post", "ev_xb"])
+            elif r < 0.98:
+                emit(["start"])
+            else:
+                emit(["end_game"])
+            if not g["in"]:
+                break
+        if g["in"]:
+            emit(["drain"])
+    return {"cfg": cfg, "ops": ops}
 
 
 def vp_table(c):
@@ -423,7 +655,15 @@ def run_impl(case):
     from rig import FakeGameRig
     logging.disable(logging.CRITICAL)
     machine_cfg, modes = build_config(case["cfg"])
-    r = FakeGameRig(machine_cfg, modes=modes).start()
+    for attempt in range(3):
+        try:
+            r = FakeGameRig(machine_cfg, modes=modes).start()
+            break
+        except AssertionError as e:
+            # MpfTestCase._wait_for_start measures WALL time (20 s): on an overloaded host the boot of the machine
+            # can exceed it before any code under test has run; boot again (anything else is a harness error)
+            if "Start took more than" not in str(e) or attempt == 2:
+                raise
     try:
         m = r.machine
         evs = []
@@ -470,6 +710,8 @@ def run_impl(case):
             xreads = None
             m2reads = None
             mode2 = False
+            if case["cfg"].get("x"):
+                xreads = [[m.achievements[n].state, bool(m.achievements[n].selected)] for n in ("ach1", "ach2")]
             if case["cfg"].get("ext"):
                 xreads = [[m.achievements[n].state, bool(m.achievements[n].selected)] for n in ("ach1", "ach2")]
                 mode2 = bool(m.modes["m2"].active)
@@ -482,8 +724,14 @@ def run_impl(case):
                 for n in ("sh3", "sh4"):
                     d = m.shots[n]
                     m2reads[n] = [tagv(d.state), bool(d.enabled), d.state_name]
-            return {"ingame": bool(g), "cur": cur, "players": players, "reads": reads, "xreads": xreads,
-                    "mode": bool(m.modes["m1"].active), "mode2": mode2, "m2reads": m2reads}
+            d = {"ingame": bool(g), "cur": cur, "players": players, "reads": reads, "xreads": xreads,
+                 "mode": bool(m.modes["m1"].active), "mode2": mode2, "m2reads": m2reads}
+            if case["cfg"].get("x"):
+                want = ["m%d" % k for k in X_MODES]
+                d["xrun"] = [int(x.name[1:]) for x in m.mode_controller.active_modes if x.name in want]
+                d["mvars"] = [[k, tagv(m.variables.get_machine_var(k))] for k in sorted(MVARS)
+                              if m.variables.is_machine_var(k)]
+            return d
 
         steps = []
         err = None
@@ -494,8 +742,12 @@ def run_impl(case):
                     r.hit_and_release_switch("s_start")
                     r.advance(1)
                 elif op[0] == "post":
-                    if len(op) < 3 or m.modes["m2"].active:
-                        m.events.post(op[1])
+                    # (a third element "ifm2" once asked for delivery only while mode m2 runs: counter control
+                    # events without state crashed the machine before the repair 6a5039f; now always delivered)
+                    m.events.post(op[1])
+                    r.advance(1)
+                elif op[0] == "postn":
+                    m.events.post(op[1], n=op[2])
                     r.advance(1)
                 elif op[0] == "drain":
                     if m.game and m.game.balls_in_play > 0:
@@ -785,27 +1037,30 @@ def check_events(prev_players, st, fails, opdesc):
                           % (opdesc, key[1], key[0])})
 
 
-def oracle(case, out):
+def oracle(case, out, adjust=None):
+    """adjust(k, j, store) (suite 'turns'): what the configuration explicitly asks operation k to do to player j who is
+    not the current player (variable_player `player: N`); without it nothing may touch such a player"""
     fails = []
     if out.get("error"):
         k = len(out["steps"])
         op = case["ops"][k] if k < len(case["ops"]) else ["?"]
         m2_on = bool(out["steps"][k - 1].get("mode2")) if k else False
         err = out["error"]
-        # recorded defect: a counter control event while the counter's mode is not running finds no state object
+        # repaired defect (6a5039f; recorded as fixed, so this sig is reported as a VIOLATION if it comes back):
+        # a counter control event while the counter's mode is not running finds no state object
         if op[0] == "post" and op[1] in COUNTER_CONTROL and not m2_on and "Counter.event_" in err and "counter.c4" in err \
                 and ("'NoneType'" in err):
             fails.append({"sig": "counter-control-event-without-state",
                           "what": "%s posted while mode m2 is not running: %s" % (op[1], err[:200])})
         else:
-            fails.append({"sig": "exception", "what": "op %d %s: the machine raised: %s" % (k, "/".join(op), err)})
+            fails.append({"sig": "exception", "what": "op %d %s: the machine raised: %s" % (k, "/".join(str(y) for y in op), err)})
     c = case["cfg"]
     prev = {"ingame": False, "cur": 0, "players": [], "reads": None, "mode": False}
     last_reads = {}         # player index -> device reads when that player's last ball ended
     frozen = {}             # player index -> variables at that player's last turn end (players not at turn)
     for k, st in enumerate(out["steps"]):
         op = case["ops"][k]
-        opdesc = "op %d %s" % (k, "/".join(op))
+        opdesc = "op %d %s" % (k, "/".join(str(y) for y in op))
         pp, ap = prev["players"], st["players"]
         new_game = st["ingame"] and not prev["ingame"]
         if not st["ingame"] or new_game:
@@ -822,13 +1077,14 @@ def oracle(case, out):
                 if j == prev["cur"] or j not in frozen:
                     frozen[j] = ap[j]            # the turn ended in this operation / the player was just added
                     continue
-                if ap[j] != frozen[j]:
+                want_j = frozen[j] if adjust is None else adjust(k, j, frozen[j])
+                if ap[j] != want_j:
                     fails.append({"sig": "leak-other-player",
                                   "what": "%s during player %d's turn changed player %d (since that player's turn "
                                           "ended): %r -> %r" %
                                           (opdesc, st["cur"] + 1, j + 1,
-                                           [x for x in frozen[j] if x not in ap[j]], [x for x in ap[j] if x not in frozen[j]])})
-                    frozen[j] = ap[j]
+                                           [x for x in want_j if x not in ap[j]], [x for x in ap[j] if x not in want_j])})
+                frozen[j] = ap[j]
             if op[0] == "start" and not c.get("ext") and prev["cur"] < len(ap) and pp[prev["cur"]] != ap[prev["cur"]]:
                 fails.append({"sig": "leak-other-player", "what": "%s (add player) changed the current player's variables"
                               % opdesc})
@@ -902,17 +1158,15 @@ def ach_restored(k, pair):
     return [state, sel]
 
 
-def oracle_ext(case, out):
-    """frame / events / logic-block and shot restore as in oracle(); in addition achievements (state, selected) are
-    per player, restored as configured at the player's next ball and initial on a first ball; the timer tick variable
-    is covered by the frame and event-chain checks (it restarts at every ball by design)"""
-    fails = oracle(case, out)
-    x = case["cfg"]["ext"]
+def ach_oracle(x, case, out, fails):
+    """achievements (state, selected) are per player: the devices read the current player's records, a first ball
+    starts from the configured initial state, a later ball from Achievement._restore_state's configured image of the
+    records at that player's previous ball end"""
     prev = {"ingame": False, "cur": 0, "players": [], "xreads": None, "mode": False}
     last = {}
     for k, st in enumerate(out["steps"]):
         op = case["ops"][k]
-        opdesc = "op %d %s" % (k, "/".join(op))
+        opdesc = "op %d %s" % (k, "/".join(str(y) for y in op))
         new_game = st["ingame"] and not prev["ingame"]
         handover = op[0] in ("drain", "end_game") and prev["ingame"] and prev["mode"]
         if handover:
@@ -937,6 +1191,36 @@ def oracle_ext(case, out):
                 fails.append({"sig": "achievement-bound-to-wrong-player",
                               "what": "%s: achievements read %r, current player %d holds %r" %
                                       (opdesc, st["xreads"], st["cur"] + 1, held)})
+        prev = st
+
+
+def oracle_ext(case, out):
+    """frame / events / logic-block and shot restore as in oracle(); in addition achievements (ach_oracle); the timer
+    tick variable is covered by the frame and event-chain checks (it restarts at every ball by design); mode m2"""
+    fails = oracle(case, out)
+    x = case["cfg"]["ext"]
+    ach_oracle(x, case, out, fails)
+    prev = {"ingame": False, "cur": 0, "players": [], "xreads": None, "mode": False}
+    ended_m2 = {}
+    for k, st in enumerate(out["steps"]):
+        op = case["ops"][k]
+        opdesc = "op %d %s" % (k, "/".join(str(y) for y in op))
+        new_game = st["ingame"] and not prev["ingame"]
+        handover = op[0] in ("drain", "end_game") and prev["ingame"] and prev["mode"]
+        # ---- restart_on_next_ball: m2 runs after a ball start iff it is configured so and ran when this player's
+        # previous ball ended
+        if handover:
+            ended_m2[prev["cur"]] = bool(prev.get("mode2"))
+        if new_game:
+            ended_m2 = {}
+        if st["ingame"] and (new_game or handover) and st["players"]:
+            want_m2 = bool(x["m2_restart"] and ended_m2.get(st["cur"], False))
+            if bool(st.get("mode2")) != want_m2:
+                fails.append({"sig": "restart-modes-mismatch",
+                              "what": "%s: player %d's ball starts with mode m2 %s; at that player's previous ball end it "
+                                      "was %s, restart_on_next_ball: %r" %
+                                      (opdesc, st["cur"] + 1, "running" if st.get("mode2") else "not running",
+                                       "running" if ended_m2.get(st["cur"]) else "not running", x["m2_restart"])})
         # ---- mode m2: bound to the current player while it runs, bound to nobody while it does not ---------------
         r2 = st.get("m2reads")
         if r2 is not None:
@@ -964,6 +1248,248 @@ def oracle_ext(case, out):
             seen.add(f["sig"])
             res.append(f)
     return res
+
+
+# ------------------------------------------------------------------------------------------------
+# suite 'turns': printers
+X_ACT = {"add": "AAdd", "set": "ASet", "add_machine": "AAddM", "set_machine": "ASetM"}
+
+
+def zopt(v):
+    return "None" if v is None else "(Some %s)" % zlit(v)
+
+
+def xcfg_term(c):
+    x = c["x"]
+
+    def vs(st):
+        var = MVARS[st["var"]] if st["var"] in MVARS else VARS[st["var"]]
+        return "(mkVS %d %s %s %s %s)" % (var, X_ACT[st["act"]], cval(st["val"]), zopt(st["player"]), zopt(st["cond"]))
+    entries = coqlist("(mkVE %d %s %s)" % (EVENTS[en["ev"]], zopt(en["mode"]), coqlist(vs(st) for st in en["sets"]))
+                      for en in x["entries"])
+    modes = coqlist("(mkM %d %d %d %s)" % (md["k"], EVENTS["ev_m%d_start" % md["k"]], EVENTS["ev_m%d_stop" % md["k"]],
+                                           blit(md["restart"])) for md in x["modes"])
+    achs = coqlist("(mkH %s %s %s %s %s)" % (
+        " ".join(str(EVENTS["ev_%s_%s" % (n, s_)]) for s_ in ("en", "start", "done", "stop", "dis", "reset", "sel", "unsel")),
+        blit(x["achs"][n]["restart_started"]), blit(x["achs"][n]["keep_enabled"]), blit(x["achs"][n]["restart_after_stop"]),
+        A_STATE[ach_initial(x["achs"][n])]) for n in ("ach1", "ach2"))
+    return "(mkX %s %s %s %s)" % (ccfg_term(c), entries, modes, achs)
+
+
+A_STATE = {"disabled": "ADisabled", "enabled": "AEnabled", "started": "AStarted", "stopped": "AStopped",
+           "completed": "ACompleted"}
+
+
+def arec_term(pair):
+    """[state, selected] as read from a device or a player's dict; no record / unbound: None"""
+    if pair is None or pair[0] is None:
+        return "None"
+    return "(Some (%s, %s))" % (A_STATE[pair[0]], blit(bool(pair[1])))
+
+
+def player_achs(p):
+    d = dict(p).get("achievements")
+    items = dict(d[1]) if d and d[0] == "d" else {}
+    return [items.get(n) for n in ("ach1", "ach2")]
+
+
+def xop_term(op):
+    if op[0] == "start":
+        return "XStart"
+    if op[0] == "post":
+        return "(XPost %d 0)" % EVENTS[op[1]]
+    if op[0] == "postn":
+        return "(XPost %d %s)" % (EVENTS[op[1]], zlit(op[2]))
+    if op[0] == "drain":
+        return "XDrain"
+    return "XEndGame"
+
+
+def restart_list(p):
+    """ids of the modes in a player's restart_modes_on_next_ball (absent / still the default 0: nothing recorded)"""
+    v = dict(p).get("restart_modes_on_next_ball")
+    if v is None or v[0] != "o" or len(v) < 2:
+        return []
+    return [int(n[1:]) if n[:1] == "m" and n[1:].isdigit() else 0 for n in v[1]]
+
+
+def xsnap_term(st):
+    mv = coqlist("(%d, %s)" % (MVARS[k], cval(v)) for k, v in sorted(st["mvars"], key=lambda kv: MVARS[kv[0]]))
+    rls = coqlist(coqlist(str(i) for i in restart_list(p)) for p in st["players"])
+    # the `achievements` variable (a dict) is compared by content (xs_ach), not as an opaque object in the store
+    base = dict(st)
+    base["players"] = [[kv for kv in p if kv[0] != "achievements"] for p in st["players"]]
+    achs = coqlist(coqlist(arec_term(r) for r in player_achs(p)) for p in st["players"])
+    areads = coqlist(arec_term(r) for r in st["xreads"])
+    return "(mkXSnap %s %s %s %s %s %s)" % (snap_term(base), coqlist(str(i) for i in st["xrun"]), mv, rls, achs, areads)
+
+
+def coq_case_x(case, out):
+    steps = out["steps"]
+    for st in steps:
+        for e in st["events"]:
+            if not all(representable(x) for x in e[1:]):
+                return None
+        for p in st["players"]:
+            if not all(representable(v) for _, v in p):
+                return None
+        if not all(representable(v) for _, v in st["mvars"]):
+            return None
+        for p in st["players"]:
+            for r in player_achs(p):
+                if r is not None and (not isinstance(r, list) or r[0] not in A_STATE):
+                    return None
+        if any(r[0] is not None and r[0] not in A_STATE for r in st["xreads"]):
+            return None
+    ops = case["ops"][:len(steps)]
+    return "((%s, %s), %s)" % (xcfg_term(case["cfg"]), coqlist(xop_term(o) for o in ops),
+                               coqlist(xsnap_term(s) for s in steps))
+
+
+HDR_X = "From C11 Require Import Model XModel.\nDefinition run := c11x_run.\nDefinition out_eqb := c11x_out_eqb.\n"
+
+
+# suite 'turns': oracle
+def o_add(a, b):
+    na, nb = num(a), num(b)
+    if na is None or nb is None:
+        return None
+    if na[0] or nb[0]:
+        return ["f", na[1] + nb[1]]
+    return ["i", (na[1] + nb[1]) // 8]
+
+
+def o_apply(store, sets):
+    """the writes a list of variable_player settings asks for, on one list of [name, value] (insertion order)"""
+    store = [list(kv) for kv in store]
+    for st in sets:
+        idx = next((n for n, kv in enumerate(store) if kv[0] == st["var"]), None)
+        old = ["i", 0] if idx is None else store[idx][1]
+        new = st["val"] if st["act"] in ("set", "set_machine") else o_add(old, st["val"])
+        if new is None:
+            continue
+        if idx is None:
+            store.append([st["var"], new])
+        else:
+            store[idx][1] = new
+    return store
+
+
+def x_effects(case, out):
+    """per operation: what its variable_player entry asks for, read off the CONFIGURATION and the state observed
+    before the operation: {player index: settings}, [machine settings].  The property: a variable without `player:`
+    belongs to the player whose turn it is, one with `player: N` to player N only (`player: 0` is "no player"; for a
+    player who does not exist MPF logs a warning and credits the current player — accepted as configured behaviour)"""
+    x = case["cfg"]["x"]
+    eff = {}
+    prev = None
+    for k, st in enumerate(out["steps"]):
+        op = case["ops"][k]
+        if op[0] == "postn" and prev is not None and prev["ingame"] and prev["mode"]:
+            for en in x["entries"]:
+                if en["ev"] != op[1] or not (en["mode"] is None or en["mode"] in prev["xrun"]):
+                    continue
+                per, mach = eff.setdefault(k, ({}, []))
+                for s_ in en["sets"]:
+                    if s_["cond"] is not None and s_["cond"] != op[2]:
+                        continue
+                    if s_["act"] in ("add", "set"):
+                        n = s_["player"]
+                        t = n - 1 if n and 1 <= n <= len(prev["players"]) else prev["cur"]
+                        per.setdefault(t, []).append(s_)
+                    else:
+                        mach.append(s_)
+        prev = st
+    return eff
+
+
+def oracle_x(case, out):
+    x = case["cfg"]["x"]
+    eff = x_effects(case, out)
+
+    def adjust(k, j, store):
+        return o_apply(store, eff[k][0].get(j, [])) if k in eff else store
+    fails = oracle(case, out, adjust)
+    ach_oracle(x["achs"], case, out, fails)
+    restart = {md["k"]: md["restart"] for md in x["modes"]}
+    prev = {"ingame": False, "cur": 0, "players": [], "mode": False, "xrun": [], "mvars": []}
+    ended_with = {}        # player index -> optional modes running when that player's last ball ended
+    for k, st in enumerate(out["steps"]):
+        op = case["ops"][k]
+        opdesc = "op %d %s" % (k, "/".join(str(y) for y in op))
+        new_game = st["ingame"] and not prev["ingame"]
+        handover = op[0] in ("drain", "end_game") and prev["ingame"] and prev["mode"]
+        # ---- variable_player: the player whose turn it is gets exactly the variables without `player:` (and those
+        # addressed to him), machine variables get exactly the machine actions
+        if op[0] == "postn" and prev["ingame"] and st["ingame"] and st["cur"] == prev["cur"] and \
+                st["cur"] < len(prev["players"]):
+            i = st["cur"]
+            want = o_apply(prev["players"][i], eff[k][0].get(i, [])) if k in eff else prev["players"][i]
+            if st["players"][i] != want:
+                fails.append({"sig": "vp-target-mismatch",
+                              "what": "%s in player %d's turn: the entry asks for %r on the current player, whose "
+                                      "variables went %r -> %r" %
+                                      (opdesc, i + 1, [(s_["var"], s_["act"], s_["val"], s_["player"]) for s_ in
+                                                       (eff[k][0].get(i, []) if k in eff else [])],
+                                       [y for y in prev["players"][i] if y not in st["players"][i]],
+                                       [y for y in st["players"][i] if y not in prev["players"][i]])})
+        want_mv = o_apply(prev["mvars"], eff[k][1]) if k in eff else prev["mvars"]
+        if sorted(st["mvars"]) != sorted(want_mv):
+            fails.append({"sig": "machine-var-mismatch", "what": "%s: machine variables %r, expected %r" %
+                          (opdesc, st["mvars"], want_mv)})
+        # ---- restart_on_next_ball: the modes running after a ball start are exactly the restart_on_next_ball modes
+        # that ran when this player's previous ball ended (none on a first ball)
+        if handover:
+            ended_with[prev["cur"]] = list(prev["xrun"])
+        if new_game:
+            ended_with = {}
+        if st["ingame"] and (new_game or handover):
+            want = [m_ for m_ in X_MODES if restart.get(m_) and m_ in ended_with.get(st["cur"], [])]
+            if st["xrun"] != want:
+                fails.append({"sig": "restart-modes-mismatch",
+                              "what": "%s: player %d's ball starts with the optional modes %r running; when that "
+                                      "player's previous ball ended %r ran, restart_on_next_ball: %r" %
+                                      (opdesc, st["cur"] + 1, st["xrun"], ended_with.get(st["cur"]), restart)})
+        if st["xrun"] and not st["ingame"]:
+            fails.append({"sig": "game-mode-outside-game", "what": "%s: modes %r run without a game" % (opdesc, st["xrun"])})
+        prev = st
+    seen, res = set(), []
+    for f in fails:
+        if f["sig"] not in seen:
+            seen.add(f["sig"])
+            res.append(f)
+    return res
+
+
+def nontrivial_x(case, out):
+    """a player reached a third ball, a restart_on_next_ball mode was carried over and one was not, and an entry with
+    an explicit other player followed by a variable of the current player fired in a multi-player game"""
+    third = carried = dropped = mixed = False
+    prev = None
+    eff = x_effects(case, out)
+    restart = {md["k"]: md["restart"] for md in case["cfg"]["x"]["modes"]}
+    for k, st in enumerate(out["steps"]):
+        if st["ingame"] and st["cur"] < len(st["players"]):
+            b = dict(st["players"][st["cur"]]).get("ball")
+            if b and b[1] >= 3:
+                third = True
+        if prev is not None and prev["ingame"] and st["ingame"] and case["ops"][k][0] in ("drain", "end_game"):
+            if st["xrun"]:
+                carried = True
+            if any(not restart.get(m_) for m_ in prev["xrun"]) or (prev["xrun"] and not st["xrun"]):
+                dropped = True
+        if k in eff and prev is not None:
+            per = eff[k][0]
+            if prev["cur"] in per and any(t != prev["cur"] for t in per):
+                mixed = True
+        prev = st
+    return third and carried and dropped and mixed
+
+
+def describe_x(case):
+    n = len(case["ops"])
+    return "ops=%s maxp=%d bpg=%d" % ("<=30" if n <= 30 else "<=60" if n <= 60 else ">60", case["cfg"]["maxp"],
+                                       case["cfg"]["bpg"])
 
 
 def nontrivial_ext(case, out):
@@ -1043,8 +1569,12 @@ def widened_search(seed):
 
 SUITES = [
     Suite("game", gen, run_impl, HDR, coq_case, oracle, shrink, nontrivial,
-          {"quick": 240, "thorough": 6000}, describe=describe, shard=30, case_timeout=120),
+          {"quick": 160, "thorough": 6000}, describe=describe, shard=30, case_timeout=120),
     # validation only (no model): the same game with two achievements and a running timer added to the mode
     Suite("ext", gen_ext, run_impl, None, None, oracle_ext, shrink, nontrivial_ext,
-          {"quick": 120, "thorough": 3000}, describe=describe, case_timeout=120),
+          {"quick": 100, "thorough": 3000}, describe=describe, case_timeout=120),
+    # variable_player entries with several variables and `player:` overrides, machine scope, optional game modes
+    # with restart_on_next_ball over >= 3 balls per player; fed to the model (coq/C11/XModel.v)
+    Suite("turns", gen_x, run_impl, HDR_X, coq_case_x, oracle_x, shrink, nontrivial_x,
+          {"quick": 90, "thorough": 3000}, describe=describe_x, shard=30, case_timeout=120),
 ]
